@@ -723,6 +723,7 @@ func (s *Server) changeAndNotify(notification string, change func() bool) {
 		// Reset the outstanding delayed call, if any.
 		if t := s.pendingNotifications[notification]; t == nil {
 			s.pendingNotifications[notification] = time.AfterFunc(notificationDelay, func() { s.notifySessions(notification) })
+			verifTimerCreated(s, s.pendingNotifications[notification]) // no-op unless built with the "verif" tag
 		} else {
 			t.Reset(notificationDelay)
 		}
